@@ -40,6 +40,7 @@ pub struct Generator
 	local_variables: std::collections::HashMap<u32, LLVMValueRef>,
 	local_labeled_blocks: std::collections::HashMap<u32, LLVMBasicBlockRef>,
 	used_intrinsics: std::collections::HashMap<&'static str, LLVMValueRef>,
+	structures: std::collections::HashMap<String, LLVMTypeRef>,
 	target_triple: CString,
 	data_layout: CString,
 	type_of_usize: LLVMTypeRef,
@@ -78,6 +79,7 @@ impl Generator
 				local_variables: std::collections::HashMap::new(),
 				local_labeled_blocks: std::collections::HashMap::new(),
 				used_intrinsics: std::collections::HashMap::new(),
+				structures: std::collections::HashMap::new(),
 				target_triple,
 				data_layout,
 				type_of_usize,
@@ -143,6 +145,7 @@ impl Generator
 		self.local_labeled_blocks.clear();
 		// Intrinsics are declared per module.
 		self.used_intrinsics.clear();
+		self.structures.clear();
 
 		Ok(())
 	}
@@ -174,8 +177,12 @@ impl Generator
 		structure_name: &str,
 	) -> Result<(), anyhow::Error>
 	{
+		// The modules share one LLVM context, in which LLVM keeps names unique;
+		// each module refers to its own structures through this table.
 		let name = CString::new(structure_name)?;
-		unsafe { LLVMStructCreateNamed(self.context, name.as_ptr()) };
+		let struct_type =
+			unsafe { LLVMStructCreateNamed(self.context, name.as_ptr()) };
+		self.structures.insert(structure_name.to_string(), struct_type);
 		Ok(())
 	}
 
@@ -282,6 +289,20 @@ impl Generator
 	/// Get the value of a constant of type `usize`,
 	/// if it can be obtained through constant folding.
 	/// This allows that constant to be used as the length in array types.
+	/// The LLVM type of a structure of the current module.
+	fn get_structure(
+		&mut self,
+		structure_name: &str,
+	) -> Result<LLVMTypeRef, anyhow::Error>
+	{
+		if let Some(&struct_type) = self.structures.get(structure_name)
+		{
+			return Ok(struct_type);
+		}
+		self.forward_declare_structure(structure_name)?;
+		Ok(self.structures[structure_name])
+	}
+
 	pub fn get_named_length(&self, name: &Identifier) -> Option<usize>
 	{
 		if let Some(&constant) = self.constants.get(&name.resolution_id)
@@ -559,18 +580,7 @@ fn declare(
 			depth: _,
 		} =>
 		{
-			let name = CString::new(&name.name as &str)?;
-			let struct_type = unsafe {
-				let x = LLVMGetTypeByName(llvm.module, name.as_ptr());
-				if !x.is_null()
-				{
-					x
-				}
-				else
-				{
-					LLVMStructCreateNamed(llvm.context, name.as_ptr())
-				}
-			};
+			let struct_type = llvm.get_structure(&name.name)?;
 
 			if flags.contains(DeclarationFlag::OpaqueStruct)
 			{
@@ -1398,8 +1408,7 @@ impl Generatable for ValueType
 				size_in_bytes: _,
 			} =>
 			{
-				let struct_name = CString::new(&identifier.name as &str)?;
-				unsafe { LLVMGetTypeByName(llvm.module, struct_name.as_ptr()) }
+				llvm.get_structure(&identifier.name)?
 			}
 			ValueType::UnresolvedStructOrWord { .. } => unreachable!(),
 			ValueType::Pointer { deref_type }
@@ -2835,8 +2844,7 @@ fn format_struct(
 	buffer.add_user_text(&struct_name.name, llvm)?;
 	buffer.add_text(" {");
 
-	let sname = CString::new(&struct_name.name as &str)?;
-	let struct_type = unsafe { LLVMGetTypeByName(llvm.module, sname.as_ptr()) };
+	let struct_type = llvm.get_structure(&struct_name.name)?;
 	// TODO print members
 	let _ = (argument, struct_type);
 
